@@ -470,8 +470,8 @@ class ChargingNetwork(BaseSimObj):
             schedule_matrix = schedule_matrix[:, time_indices]
 
         if linear:
-            return np.abs(
-                self.constraint_matrix[constraint_indices] @ schedule_matrix
+            return (
+                np.abs(self.constraint_matrix[constraint_indices]) @ schedule_matrix
             ).astype("complex")
         else:
             # build vector of phase angles on EVSE
